@@ -499,6 +499,26 @@ class Exec:
         self.fresh_n += 1
         return z3.BitVec('%s!%d' % (name, self.fresh_n), w)
 
+    def fresh_value(self, ty, name, depth=0):
+        """symbolic value of a (reference-free, plain data) type: structs/tuples/arrays of integers, field-less enums excluded"""
+        ii = self.p.int_info(ty)
+        if ii:
+            return z3.Bool(name) if ii[0] == 'bool' else z3.BitVec(name, ii[0])
+        r = self.p.tk(ty)
+        if isinstance(r, dict) and 'Adt' in r:
+            a = self.p.adt(ty)
+            if a['adt_kind'] == 'struct':
+                return Agg([self.fresh_value(f['ty'], '%s.%s' % (name, f['name']), depth + 1) for f in a['variants'][0]['fields']])
+            raise Unsupported('fresh value of %s' % a['name'])
+        if isinstance(r, dict) and 'Tuple' in r:
+            return Agg([self.fresh_value(t, '%s.%d' % (name, i), depth + 1) for i, t in enumerate(r['Tuple'])])
+        if isinstance(r, dict) and 'Array' in r:
+            n = self.array_len(ty)
+            if n > 64:
+                return Agg([Opaque('bulk') for _ in range(n)])
+            return Agg([self.fresh_value(r['Array'][0], '%s[%d]' % (name, i), depth + 1) for i in range(n)])
+        raise Unsupported('fresh value of type %s' % self.p.ty_str(ty))
+
     # ---------------------------------------------------------------- exploration
     def explore(self, fn_key, mk_args, on_path=None, env=None, pc0=None):
         """Run fn on all feasible paths. mk_args() builds fresh argument values for each path (state is mutated).
@@ -1601,8 +1621,13 @@ class Exec:
         callee = self.p.fn(info['key'])
         self.fns_reached.add(callee['name'])
         if self.stubs:
+            nm = callee.get('_bare')
+            if nm is None:
+                from .inventory import strip_turbofish
+                nm = strip_turbofish(callee['name'])
+                callee['_bare'] = nm
             for pat, stub in self.stubs:
-                if pat in callee['name']:
+                if nm.endswith(pat):
                     return stub(self, callee, args)
         if callee['body'] is None:
             if callee['kind'] == 'virtual':
